@@ -29,12 +29,12 @@ COORDS = dict(
     ord=list(range(len(ORDS))),
     sub=['none', 'full', 'lo', 'mid', 'hi'],
     place=['none', 'shift', 'tail', 'head'],
-    preload=[0, 1, 2],
+    preload=[0, 1, 2, 3, 4],
     finalize=[1, 0],
 )
 for _f in pan.FLAGS:
     COORDS['t_' + _f] = [0, 1]
-PRELOADS = [None, (-1.0e3, 0.0, 0.0), (0.3e3, -0.7e3, 0.45e3)]
+PRELOADS = [None, (-1.0e3, 0.0, 0.0), (0.3e3, -0.7e3, 0.45e3), (500.0, -500.0, 0.0), (-200.0, 0.0, 200.0)]
 GEOMS = {'g1': (2.0, 1.0), 'g2': (0.7, 1.3)}
 
 
@@ -172,6 +172,31 @@ def check_case(case):
             if r3 > 1:
                 fails.append(fail('sub-intervals that tile the width do not add up to the %s' % nm, sig=None, cfg=cfg, index=i3,
                                   got=float(tot[i3]), expected=float(Wm[i3])))
+    # edge: re-use of one Panel object - evaluate the neighbouring (base-side) configuration first, then change the
+    # definition attributes on the same object and evaluate again: must equal the freshly defined object
+    REUSE = ('offset', 'geom', 'r', 'alpha', 'fbase', 'ord', 'sub', 'preload')
+    lp = case['lp']
+    devs = [q for q in lp if q in REUSE or q.startswith('t_')]
+    if devs and cfg['finalize'] and not fails:
+        q = sorted(devs)[-1]
+        nb = dict(full_point(lp))
+        nb[q] = COORDS[q][0] if COORDS[q][0] != nb[q] else COORDS[q][1]
+        cfg_nb = expand(nb, case['seed'])
+        p2 = pan.make_panel(cfg_nb)
+        s2 = pan.placement(cfg_nb, (1 if cfg_nb['model'] == 'plate_w' else 3) * cfg_nb['m'] * cfg_nb['n'])
+        p2.calc_k0(size=s2[0], row0=s2[1], col0=s2[2], silent=True)
+        pt = pan.make_panel(cfg)                       # donor of the target definition
+        for att in ('a', 'b', 'r', 'alphadeg', 'offset', 'm', 'n', 'y1', 'y2', 'Nxx_cte', 'Nyy_cte', 'Nxy_cte') + tuple(pan.FLAGS):
+            if att in ('r', 'alphadeg') and cfg['model'] not in ('cpanel', 'kpanel'):
+                continue
+            setattr(p2, att, getattr(pt, att))
+        Kre = pan.dense(p2.calc_k0(size=size, row0=r0, col0=c0, silent=True))
+        execs += 2
+        trans += 1
+        rr, ir = pan.worst(Kre, K, S_g, RTOL)
+        if rr > 1:
+            fails.append(fail('k0 of a re-used Panel object whose definition was changed differs from that of a freshly defined panel',
+                              sig=None, cfg=cfg, changed=q, index=ir, got=float(Kre[ir]), expected=float(K[ir])))
     return dict(fails=fails, execs=execs, transitions=trans + len(case['lp']), max_ratio=ratio,
                 nontrivial=1 if case['lp'] else 0)
 
